@@ -153,28 +153,42 @@ theorem askValidate_appends' {P} (hP : Benign P) (w : W) (h v : Nat) (b : Option
 theorem askValidate_appends (w : W) (h v : Nat) (b : Option Block) (hash : Nat) :
     Appends NP w (askValidate w h v b hash).1 := askValidate_appends' NP_benign w h v b hash
 
-theorem onElectedByViewChange_appends (w : W) (view : Nat) (vcs : List VCMsg) :
-    Appends NP w (onElectedByViewChange w view vcs) := by
+/-- predicates that hold of everything a node emits on being elected (it never sends a VIEW_CHANGE then) -/
+structure AccLead (P : Out → Prop) : Prop extends Benign P where
+  nv : ∀ rs m, P (.send rs (.newView m))
+
+/-- predicates that hold of everything the election path can emit -/
+structure AccElect (P : Out → Prop) : Prop extends AccLead P where
+  vc : ∀ rs m, P (.send rs (.viewChange m))
+  pp : ∀ rs m, P (.send rs (.preprepare m))
+
+theorem NP_accElect : AccElect NP := ⟨⟨NP_benign, fun _ _ => rfl⟩, fun _ _ => rfl, fun _ _ => rfl⟩
+
+theorem onElectedByViewChange_appends' {P} (hP : AccLead P) (w : W) (view : Nat) (vcs : List VCMsg) :
+    Appends P w (onElectedByViewChange w view vcs) := by
   unfold onElectedByViewChange
   dsimp only
-  have h0 := initView_appends { w with n := { w.n with latestNV := view } } view
+  have h0 := initView_appends' hP.toBenign { w with n := { w.n with latestNV := view } } view
   generalize initView { w with n := { w.n with latestNV := view } } view = r at h0 ⊢
   obtain ⟨w1, ok⟩ := r
-  have h0' : Appends NP w w1 := h0
+  have h0' : Appends P w w1 := h0
   dsimp only
   split
   · exact h0'
   · split
-    · exact Appends.emit_trans _ (Appends.setN _ h0') rfl
-    · have h1 := Appends.trans h0' (askProposal_appends w1 w1.n.cfg.height view)
+    · exact Appends.emit_trans _ (Appends.setN _ h0') (hP.nv _ _)
+    · have h1 := Appends.trans h0' (askProposal_appends' hP.toBenign w1 w1.n.cfg.height view)
       generalize askProposal w1 w1.n.cfg.height view = r2 at h1 ⊢
       obtain ⟨w2, ob⟩ := r2
       dsimp only at h1 ⊢
       split
-      · exact Appends.emit_trans _ (Appends.setN _ h1) rfl
+      · exact Appends.emit_trans _ (Appends.setN _ h1) (hP.nv _ _)
       · exact h1
 
-theorem checkElected_appends (w : W) (h view : Nat) : Appends NP w (checkElected w h view) := by
+theorem onElectedByViewChange_appends (w : W) (view : Nat) (vcs : List VCMsg) :
+    Appends NP w (onElectedByViewChange w view vcs) := onElectedByViewChange_appends' NP_accElect.toAccLead w view vcs
+
+theorem checkElected_appends' {P} (hP : AccLead P) (w : W) (h view : Nat) : Appends P w (checkElected w h view) := by
   unfold checkElected
   dsimp only
   split
@@ -183,9 +197,12 @@ theorem checkElected_appends (w : W) (h view : Nat) : Appends NP w (checkElected
   · exact Appends.refl _ _
   split
   · exact Appends.refl _ _
-  · exact onElectedByViewChange_appends _ _ _
+  · exact onElectedByViewChange_appends' hP _ _ _
 
-theorem handleViewChange_appends (w : W) (vcm : VCMsg) : Appends NP w (handleViewChange w vcm) := by
+theorem checkElected_appends (w : W) (h view : Nat) : Appends NP w (checkElected w h view) :=
+  checkElected_appends' NP_accElect.toAccLead w h view
+
+theorem handleViewChange_appends' {P} (hP : AccLead P) (w : W) (vcm : VCMsg) : Appends P w (handleViewChange w vcm) := by
   unfold handleViewChange
   dsimp only
   split; exact Appends.refl _ _
@@ -193,21 +210,26 @@ theorem handleViewChange_appends (w : W) (vcm : VCMsg) : Appends NP w (handleVie
   split; exact Appends.refl _ _
   split; exact Appends.refl _ _
   split; exact Appends.refl _ _
-  exact checkElected_appends _ _ _
+  exact checkElected_appends' hP _ _ _
 
-theorem election_appends (w : W) (h v : Nat) : Appends NP w (election w h v) := by
+theorem handleViewChange_appends (w : W) (vcm : VCMsg) : Appends NP w (handleViewChange w vcm) :=
+  handleViewChange_appends' NP_accElect.toAccLead w vcm
+
+theorem election_appends' {P} (hP : AccElect P) (w : W) (h v : Nat) : Appends P w (election w h v) := by
   unfold election
   dsimp only
   split
   · exact Appends.refl _ _
-  have h0 := initView_appends w (wrap64 (w.n.view + 1))
+  have h0 := initView_appends' hP.toBenign w (wrap64 (w.n.view + 1))
   generalize initView w (wrap64 (w.n.view + 1)) = r at h0 ⊢
   obtain ⟨w1, ok⟩ := r
   dsimp only at h0 ⊢
   split
   · exact h0
   · split
-    · exact Appends.trans (Appends.setN _ h0) (checkElected_appends _ _ _)
-    · exact Appends.emit_trans _ h0 rfl
+    · exact Appends.trans (Appends.setN _ h0) (checkElected_appends' hP.toAccLead _ _ _)
+    · exact Appends.emit_trans _ h0 (hP.vc _ _)
+
+theorem election_appends (w : W) (h v : Nat) : Appends NP w (election w h v) := election_appends' NP_accElect w h v
 
 end LeanHelix.Term
